@@ -89,7 +89,8 @@ Sos == [t |-> "SOS"]
 
 JpegOtherKinds == { "app0", "app1", "app2", "app3", "app4", "app5", "app6", "app7", "app8", "app9",
                     "app10", "app11", "app12", "app13", "app14", "app15", "com", "dqt", "dht", "dri",
-                    "app2short", "app2empty", "app2almost" }
+                    "app2short", "app2empty", "app2almost",
+                    "fill", "fillcom" }       \* fill bytes (X'FF') ahead of a marker: ITU-T T.81 B.1.1.2 allows any number
 JpegSofs == { Sof(0, 8, 16, 15, 3), Sof(2, 8, 1, 65535, 1), Sof(0, 12, 65535, 256, 4),
               Sof(2, 8, 257, 258, 3) }
 JpegLetters == { IccSeg(s, t, p) : s \in 0..3, t \in 1..2, p \in 1..2 } \cup
